@@ -116,12 +116,33 @@ fn known_open<'a>(known: &'a [Known], v: &Violation) -> Option<&'a Known> {
     known.iter().find(|k| {
         k.status == "open"
             && k.property == v.prop
-            && if let Some(pre) = k.fingerprint.strip_suffix('*') {
-                v.check.starts_with(pre)
-            } else {
-                v.check == k.fingerprint
-            }
+            && glob(&k.fingerprint, &v.check)
     })
+}
+
+/// `*` matches any run of characters; everything else is literal.
+fn glob(pat: &str, s: &str) -> bool {
+    let parts: Vec<&str> = pat.split('*').collect();
+    if parts.len() == 1 {
+        return pat == s;
+    }
+    let mut rest = s;
+    for (i, p) in parts.iter().enumerate() {
+        if i == 0 {
+            if !rest.starts_with(p) {
+                return false;
+            }
+            rest = &rest[p.len()..];
+        } else if i + 1 == parts.len() {
+            return rest.ends_with(p);
+        } else {
+            match rest.find(p) {
+                Some(at) => rest = &rest[at + p.len()..],
+                None => return false,
+            }
+        }
+    }
+    true
 }
 
 /// One unit of work: a seeded run, or a labelled workload item.
@@ -488,9 +509,15 @@ fn cmd_replay(a: &[String]) -> i32 {
         eprintln!("harness error: {path} was recorded with flavour {}, this binary is {}", t.flavour, run::flavour());
         return 2;
     }
-    let Some(r) = run::exec(&t.nodes, &t.events, t.seed, &t.property, true) else {
-        eprintln!("harness error: set-up of {path} needs back-ends this flavour lacks");
-        return 2;
+    let r = if let Some(tier) = t.workload.strip_prefix("seed-only:") {
+        // the run is regenerated from its seed (used when the run kills the process)
+        run::run_seeded(&t.property, t.seed, tier == "thorough", true).1
+    } else {
+        let Some(r) = run::exec(&t.nodes, &t.events, t.seed, &t.property, true) else {
+            eprintln!("harness error: set-up of {path} needs back-ends this flavour lacks");
+            return 2;
+        };
+        r
     };
     if !quiet {
         for l in &r.log {
